@@ -523,6 +523,7 @@ func RenderHistory(r *Rand, h *XHistory, plain bool, encrypt func(num uint32, ge
 		for _, n := range compress {
 			inObjStm[n] = true
 		}
+		auxVals := map[uint32]any{} // auxiliary objects that go into object streams
 		writeObj := func(n uint32, g uint16, body func()) {
 			if !plain && r.Chance(1, 4) {
 				f.WriteString("% a comment between objects" + st.EOL())
@@ -570,7 +571,15 @@ func RenderHistory(r *Rand, h *XHistory, plain bool, encrypt func(num uint32, ge
 						ownLength = true
 						lenObj = aux()
 						d["Length"] = XRef{lenObj, 0}
-						deferred = func() { writeObj(lenObj, 0, func() { st.Render(&f, int64(len(stm.Raw))) }) }
+						if rev.Kind != "table" && encrypt == nil && r.Bool() {
+							// the length lives in an object stream of this revision
+							// (7.5.7 bars that for the /Length of object streams only)
+							auxVals[lenObj] = int64(len(stm.Raw))
+							compress = append(compress, lenObj)
+							info.Features = append(info.Features, "indirect-length-in-object-stream")
+						} else {
+							deferred = func() { writeObj(lenObj, 0, func() { st.Render(&f, int64(len(stm.Raw))) }) }
+						}
 					} else {
 						ownLength = true
 						d["Length"] = int64(len(stm.Raw))
@@ -612,7 +621,11 @@ func RenderHistory(r *Rand, h *XHistory, plain bool, encrypt func(num uint32, ge
 			var head, body bytes.Buffer
 			for i, n := range members {
 				fmt.Fprintf(&head, "%d%s%d%s", n, st.WS(), body.Len(), st.WS())
-				st.Render(&body, rev.Actions[n].Value)
+				if v, isAux := auxVals[n]; isAux {
+					st.Render(&body, v)
+				} else {
+					st.Render(&body, rev.Actions[n].Value)
+				}
 				body.WriteString(st.WS())
 				row := xrefRow{2, int64(cn), int64(i)}
 				if rev.Kind == "hybrid" {
